@@ -93,6 +93,10 @@ pub fn cmd_arm64(prop: &str) -> i32 {
                 for (fo, jo) in [(0u64, 0u64), (0xFFC, 0), (0x10, 0xFF0)] {
                     let func = 0x2_0000_0000u64 + fo;
                     let jit = (0x2_0000_0000u64 as i64 + pd * 4096) as u64 + jo;
+                    if s1::overlaps(func, jit) {
+                        // (a trampoline is never the function's own page)
+                        continue;
+                    }
                     let c = A64Case { macos: true, func, jit, fake: base | 1, mode: Mode::Fn, salt: base };
                     if let Err(m) = a64_check(&mut rec, &c) {
                         let sig = m.split(']').next().unwrap_or("").trim_start_matches('[').to_string();
